@@ -698,11 +698,18 @@ Section Heavy.
           * apply Valued. apply (First r); reflexivity.
           * apply Valued. apply (AfterF ft' r); reflexivity.
           * destruct Eo as (-> & -> & -> & Ns & _). simpl in Hw.
-            destruct Hw as (_ & fv & -> & As & _).
-            destruct (lookup (KVal n t EmptyString) (s_vals s)) as [x|] eqn:Qx.
-            -- apply Valued. eapply lookup_mem; eauto.
-            -- apply Next; [apply post_same; auto|]. simpl. split; [symmetry; exact Qx|].
-               exists fv. split; [reflexivity|]. split; [exact As|]. intros _. split; [reflexivity|]. eauto.
+            destruct Hw as (_ & fv & -> & As & Un).
+            destruct (lookup (KVal n t st') (s_vals s)) as [y|] eqn:Qy.
+            -- assert (Vy : val_ok u (KVal n t EmptyString) y) by (apply (so_vals Hs _ Qy)).
+               pose proof (post_set_val (KVal n t EmptyString) y Hs Vy) as P1.
+               assert (Q1 : lookup (KVal n t EmptyString) (s_vals (set_val s (KVal n t EmptyString) (Some y))) = Some y)
+                 by (cbn [set_val set_vals s_vals]; apply lookup_insert_eq).
+               rewrite Q1.
+               apply Next.
+               ++ eapply post_trans; [exact P1|]. apply post_same; auto. apply P1.
+               ++ simpl. split; [symmetry; exact Q1|]. exists y. split; [reflexivity|].
+                  split; [exact Vy|]. rewrite lookup_insert_eq. discriminate.
+            -- exfalso. destruct (Un eq_refl) as (E0 & _). contradiction.
           * contradiction.
           * subst t'. simpl in Hw. destruct Hw as (x & Qx & _). rewrite Qx.
             assert (Vx0 : val_ok u (KVal n t st) x) by (apply (so_vals Hs _ Qx)).
